@@ -578,7 +578,7 @@ var _ = stdtls.VersionTLS12
 var Prop = &harness.Prop{
 	ID:          "C15",
 	Level:       "model_checking",
-	Rule:        "deviation-bounded exploration of scripted handshakes: for each server mode {GMSSL-only, auto-switch with GMSSL client, auto-switch with TLS client, TLS-only} and client-authentication {none, require-any} the honest exchange between two library endpoints is taken as the default trace and exactly one deviation is applied at every plaintext handshake message of both directions: omitted, repeated, replaced/preceded by each of 13 message types (canned well-formed bodies), type byte changed, ChangeCipherSpec / application data / fatal alert / close_notify / warning alert(s) / malformed alert / zero-length record / unknown record type injected, one-byte fragmentation, 4 record versions, body truncated to 4 lengths with consistent and stale length fields, message length +1 / 0xffffff / 65537, trailing byte, every inner byte set to {0,+1,-1,0xff}; end of stream after every record; plus the first-flight spaces: every ClientHello version 0x0000..0x0400 x 7 suite lists x compression lists against each server mode and every ServerHello version x 6 suites x compression against GMSSL and TLS clients. Oracle: never a panic, never an endpoint still waiting after end of stream; for non-conformant deviations the receiving endpoint returns an error and does not report completion (conformant variations - warning alert, empty record, re-fragmentation, record-layer version - are recorded, not judged). Scripted peer (gmref, both roles, both ECC suites, with and without client authentication): every single edit of the peer's two flights - each message omitted, sent twice, swapped with its successor, and each of 13-15 alphabet items (all handshake messages of both roles, ChangeCipherSpec, Finished, HelloRequest, unknown type, NewSessionTicket, application data, empty application data, warning alert) inserted at every position or put in place of every message (thorough: every pair of edits); every length/count field of every message set to +1/-1/0/max/+256/^0x80; every strict truncation of every body and a trailing byte with the handshake length adjusted. There the oracle also demands completion of every conformant variant. states = distinct scripted traces; transitions = sessions run. Added scripted-peer units: TLS 1.0/1.1/1.2 RSA, TLS 1.2 ECDHE-GCM and ECDHE-CBC at 1.0-1.2 profiles of the reference peer (flight edits, malformed fields with cuts at every length-field boundary, straddling ChangeCipherSpec); CertificateRequest contents (12 type lists x signature algorithms x 8 authority lists x 5 ways the client chooses); NextProtocol on TLS and GMSSL servers; unoffered suite; every exported suite id x ClientHello version 0300..0304 against a server listing exactly that suite; renegotiation: policy x requests x RFC 5746, every single flight edit inside the first and second renegotiation, ten odd requests, end of stream after every record, and the first-handshake units again with renegotiation-enabled clients. Flight edits also with the peer's handshake messages packed into one record per flight. A scripted server that selects an ECDHE-SM2 suite: curve_type x named_curve x 7 point encodings x 8 signature kinds (the server holds the certified signing key), the signed body cut at every length, inconsistent point lengths. The alphabets include an empty Certificate; a whole unsolicited client authentication (Certificate, ClientKeyExchange, CertificateVerify) is one case.",
+	Rule:        "deviation-bounded exploration of scripted handshakes: for each server mode {GMSSL-only, auto-switch with GMSSL client, auto-switch with TLS client, TLS-only} and client-authentication {none, require-any} the honest exchange between two library endpoints is taken as the default trace and exactly one deviation is applied at every plaintext handshake message of both directions: omitted, repeated, replaced/preceded by each of 13 message types (canned well-formed bodies), type byte changed, ChangeCipherSpec / application data / fatal alert / close_notify / warning alert(s) / malformed alert / zero-length record / unknown record type injected, one-byte fragmentation, 4 record versions, body truncated to 4 lengths with consistent and stale length fields, message length +1 / 0xffffff / 65537, trailing byte, every inner byte set to {0,+1,-1,0xff}; end of stream after every record; plus the first-flight spaces: every ClientHello version 0x0000..0x0400 x 7 suite lists x compression lists against each server mode and every ServerHello version x 6 suites x compression against GMSSL and TLS clients. Oracle: never a panic, never an endpoint still waiting after end of stream; for non-conformant deviations the receiving endpoint returns an error and does not report completion (conformant variations - warning alert, empty record, re-fragmentation, record-layer version - are recorded, not judged). Scripted peer (gmref, both roles, both ECC suites, with and without client authentication): every single edit of the peer's two flights - each message omitted, sent twice, swapped with its successor, and each of 13-15 alphabet items (all handshake messages of both roles, ChangeCipherSpec, Finished, HelloRequest, unknown type, NewSessionTicket, application data, empty application data, warning alert) inserted at every position or put in place of every message (thorough: every pair of edits); every length/count field of every message set to +1/-1/0/max/+256/^0x80; every strict truncation of every body and a trailing byte with the handshake length adjusted. There the oracle also demands completion of every conformant variant. states = distinct scripted traces; transitions = sessions run. Added scripted-peer units: TLS 1.0/1.1/1.2 RSA, TLS 1.2 ECDHE-GCM and ECDHE-CBC at 1.0-1.2 profiles of the reference peer (flight edits, malformed fields with cuts at every length-field boundary, straddling ChangeCipherSpec); CertificateRequest contents (12 type lists x signature algorithms x 8 authority lists x 5 ways the client chooses); NextProtocol on TLS and GMSSL servers; unoffered suite; every exported suite id x ClientHello version 0300..0304 against a server listing exactly that suite; renegotiation: policy x requests x RFC 5746, every single flight edit inside the first and second renegotiation, ten odd requests, end of stream after every record, and the first-handshake units again with renegotiation-enabled clients. Flight edits also with the peer's handshake messages packed into one record per flight. A scripted server that selects an ECDHE-SM2 suite: curve_type x named_curve x 7 point encodings x 8 signature kinds (the server holds the certified signing key), the signed body cut at every length, inconsistent point lengths. The alphabets include an empty Certificate; a whole unsolicited client authentication (Certificate, ClientKeyExchange, CertificateVerify) is one case. ChangeCipherSpec with 7 malformed bodies followed by a correct Finished sent with and without record protection.",
 	Assumptions: []string{"in the man-in-the-middle units Finished always mismatches after a deviation; the scripted-peer units use the independent reference implementation gmref, whose Finished covers the transcript that really happened, so there a deviation can only be refused by noticing the deviation itself", "conformance of a scripted sequence is decided by the message grammar of the ECC suites (ServerHello, Certificate, ServerKeyExchange, [CertificateRequest], ServerHelloDone / [Certificate], ClientKeyExchange, [CertificateVerify], ChangeCipherSpec, Finished); warning alerts and HelloRequest towards a client are tolerated either way"},
 	Bounds: func(tier string) string {
 		if tier == "thorough" {
